@@ -210,6 +210,8 @@ def _deref(vm, cal, args):
     if isinstance(v, Adt) and v.ty == 'Cow' and len(v.fields) == 1:
         inner = v.fields[0]
         return inner if isinstance(inner, Ref) else Ref(r.cell, r.path + (0,))
+    if isinstance(v, Adt) and v.ty == 'OPoint' and len(v.fields) == 1:
+        return Ref(r.cell, r.path + (0,))      # nalgebra points deref to their named coordinates (x, y, ..)
     return r
 
 
@@ -2292,3 +2294,160 @@ def _o_copied2(vm, cal, args):
     if _is_some(v):
         return SOME(vm.deref(as_ref(v.fields[0])))
     return v
+
+
+# ===================================================================== nalgebra: matrices as TERMS
+# Static matrices / vectors are not computed numerically (float linear algebra is out of reach for the solver): a matrix is
+# either a column vector with explicit elements (VM scalar values) or an opaque term op(args). Products, sums, transposes,
+# triangular solves, Cholesky factors build terms; element-wise products of explicit vectors are computed element by
+# element (exact float terms); indexing an opaque term yields one functional symbolic scalar per (term, index).
+# Equal terms denote equal values (soundness); different terms may still be equal (a counterexample built on that does not
+# reproduce natively).
+class MatT:
+    __slots__ = ("op", "args")
+
+    def __init__(self, op, args=()):
+        self.op = op
+        self.args = tuple(args)
+
+    def key(self):
+        return (self.op,) + tuple(a.key() if isinstance(a, MatT) else ('s', repr(a)) for a in self.args)
+
+    def __eq__(self, o):
+        return isinstance(o, MatT) and self.key() == o.key()
+
+    def __hash__(self):
+        return hash(self.key())
+
+    def __repr__(self):
+        return "%s(%s)" % (self.op, ", ".join(repr(a) for a in self.args))
+
+
+def _mat(vm, v):
+    while isinstance(v, Ref):
+        v = vm.deref(v)
+    if not isinstance(v, MatT):
+        raise Unmodelled("matrix term expected, got %r" % (v,))
+    return v
+
+
+def mat_sym(name):
+    return MatT('sym', (name,))
+
+
+def mat_vec(elems):
+    return MatT('vec', tuple(elems))
+
+
+def _mat_elem(vm, m, idx):
+    if m.op == 'vec':
+        i = idx if isinstance(idx, int) else idx.concrete()
+        if i is None:
+            raise Unmodelled("symbolic index into an explicit vector")
+        if i >= len(m.args):
+            raise Panic("matrix index out of bounds")
+        return m.args[i]
+    cache = vm.notes.setdefault('mat_elems', {})
+    ik = idx if isinstance(idx, (int, tuple)) else (idx.concrete() if hasattr(idx, 'concrete') else repr(idx))
+    k = (m.key(), ik)
+    if k not in cache:
+        x = vm.fresh('f32', 'elem')
+        vm.assume(z3.And(z3.Not(z3.fpIsNaN(x)), z3.Not(z3.fpIsInf(x))))
+        cache[k] = x
+    return cache[k]
+
+
+@reg(('Matrix', 'Index', 'index'))
+def _mat_index(vm, cal, args):
+    m = _mat(vm, args[0])
+    idx = args[1]
+    if isinstance(idx, tuple):
+        idx = tuple(i.concrete() for i in idx)
+    return Ref(Cell(_mat_elem(vm, m, idx), 'mat_elem'))
+
+
+@reg(('Matrix', None, 'from_iterator'), ('Matrix', None, 'from_vec'), ('Matrix', None, 'from_row_slice'), ('Matrix', None, 'from_column_slice'))
+def _mat_from_iter(vm, cal, args):
+    xs = drain_iter(vm, into_iter(vm, args[0])) if not isinstance(args[0], (VecV, tuple)) else list(seq_of(vm, args[0]))
+    out = []
+    for x in xs:
+        while isinstance(x, Ref):
+            x = vm.deref(x)
+        out.append(x)
+    return mat_vec(out)
+
+
+@reg(('Matrix', None, 'from_diagonal'))
+def _mat_from_diag(vm, cal, args):
+    return MatT('diag', (_mat(vm, args[0]),))
+
+
+@reg(('Matrix', None, 'identity'))
+def _mat_identity(vm, cal, args):
+    return MatT('identity', (cal.self_ty or '',))
+
+
+@reg(('Matrix', None, 'zeros'))
+def _mat_zeros(vm, cal, args):
+    return MatT('zeros', (cal.self_ty or '',))
+
+
+@reg(('Matrix', None, 'component_mul'))
+def _mat_component_mul(vm, cal, args):
+    a, b = _mat(vm, args[0]), _mat(vm, args[1])
+    if a.op == 'vec' and b.op == 'vec' and len(a.args) == len(b.args):
+        return mat_vec([f_arith('mul', x, y) for x, y in zip(a.args, b.args)])
+    return MatT('cmul', (a, b))
+
+
+@reg(('Matrix', None, 'transpose'))
+def _mat_transpose(vm, cal, args):
+    a = _mat(vm, args[0])
+    if a.op == 'T':
+        return a.args[0]
+    return MatT('T', (a,))
+
+
+def _mat_binop(op):
+    def g(vm, cal, args):
+        return MatT(op, (_mat(vm, args[0]), _mat(vm, args[1])))
+    return g
+
+
+M.table[('Matrix', 'Mul', 'mul')] = _mat_binop('mul')
+M.table[('Matrix', 'Add', 'add')] = _mat_binop('add')
+M.table[('Matrix', 'Sub', 'sub')] = _mat_binop('sub')
+
+
+@reg(('Matrix', 'SubAssign', 'sub_assign'), ('Matrix', 'AddAssign', 'add_assign'))
+def _mat_op_assign(vm, cal, args):
+    r = as_ref(args[0])
+    vm.store(r, MatT('sub' if cal.method == 'sub_assign' else 'add', (_mat(vm, r), _mat(vm, args[1]))))
+    return ()
+
+
+@reg(('Matrix', None, 'solve_lower_triangular'), ('Matrix', None, 'solve_upper_triangular'))
+def _mat_solve(vm, cal, args):
+    return SOME(MatT(cal.method, (_mat(vm, args[0]), _mat(vm, args[1]))))
+
+
+@reg(('Matrix', None, 'cholesky'))
+def _mat_cholesky(vm, cal, args):
+    return SOME(MatT('cholesky', (_mat(vm, args[0]),)))
+
+
+@reg(('Cholesky', None, 'l'), ('Cholesky', None, 'unpack'))
+def _chol_l(vm, cal, args):
+    return MatT('chol_l', (_mat(vm, args[0]),))
+
+
+@reg(('Matrix', None, 'sum'), ('Matrix', None, 'norm'), ('Matrix', None, 'norm_squared'), ('Matrix', None, 'determinant'), ('Matrix', None, 'trace'))
+def _mat_scalar(vm, cal, args):
+    a = _mat(vm, args[0])
+    vm.notes['last_%s_term' % cal.method] = a
+    return _mat_elem(vm, MatT(cal.method, (a,)), 0)
+
+
+@reg(('Matrix', None, 'try_inverse'))
+def _mat_inverse(vm, cal, args):
+    return SOME(MatT('inverse', (_mat(vm, args[0]),)))
